@@ -14,6 +14,14 @@ pub type PathId = usize;
 //@include ../common/messages.rs
 
 // ---- real: LogMessage (src/data/common.rs), LogMessageType (src/common.rs), SummaryPrinted (src/printer/summary.rs)
+// the lines of the --summary report that show the totals: each format string is registered so that the statement keeps its argument
+//@formatfn "Printed bytes          : {}" verif_show_bytes
+//@formatfn "Printed flushes        : {}" verif_show_flushes
+//@formatfn "Printed lines          : {}" verif_show_lines
+//@formatfn "Printed syslines       : {}" verif_show_syslines
+//@formatfn "Printed evtx events    : {}" verif_show_evtx
+//@formatfn "Printed fixedstruct    : {}" verif_show_fixedstruct
+//@formatfn "Printed journal events : {}" verif_show_journal
 //@cut type kind=enum path=src/data/common.rs name=LogMessage derives=
 //@end
 //@cut type kind=enum path=src/common.rs name=LogMessageType derives=Clone,Copy
@@ -269,6 +277,32 @@ pub fn sum_file_iteration(pathid: &PathId, path: &FPath, modified_time: &Opaque,
     let mut summary_opt: SummaryOpt = carried_summary;
     let mut summary_print_opt: SummaryPrintedOpt = carried_print;
 //@cut slice path=src/printer/summary.rs fn=print_all_files_summaries anchor="let summary_opt: SummaryOpt = map_pathid_summary.remove(pathid);" take=range end_anchor="print_file_summary(" label=SUM-FILE
+//@end
+}
+
+// =====================================================================================================
+// SUM-TOTALS — what the report shows (print_summary, src/printer/summary.rs): under each label the total it names.  The seven
+// `eprintln!` statements are cut from the function; each is kept as a call whose obligation is on the value it is given.
+/// ghost: the totals the report is about
+pub uninterp spec fn shown() -> SummaryPrinted;
+#[verifier::external_body]
+pub fn verif_show_bytes(v: &Count) requires *v == shown().bytes { unimplemented!() }
+#[verifier::external_body]
+pub fn verif_show_flushes(v: &Count) requires *v == shown().flushed { unimplemented!() }
+#[verifier::external_body]
+pub fn verif_show_lines(v: &Count) requires *v == shown().lines { unimplemented!() }
+#[verifier::external_body]
+pub fn verif_show_syslines(v: &Count) requires *v == shown().syslines { unimplemented!() }
+#[verifier::external_body]
+pub fn verif_show_evtx(v: &Count) requires *v == shown().evtxentries { unimplemented!() }
+#[verifier::external_body]
+pub fn verif_show_fixedstruct(v: &Count) requires *v == shown().fixedstructentries { unimplemented!() }
+#[verifier::external_body]
+pub fn verif_show_journal(v: &Count) requires *v == shown().journalentries { unimplemented!() }
+pub fn sum_totals_shown(summaryprinted: SummaryPrinted)
+    requires shown() == summaryprinted
+{
+//@cut slice path=src/printer/summary.rs fn=print_summary anchor="summaryprinted.bytes);" take=range end_anchor="summaryprinted.journalentries);" label=SUM-TOTALS
 //@end
 }
 
